@@ -4,6 +4,21 @@ import json
 props = [json.loads(l) for l in open('/verif/properties.jsonl')]
 claimed = {
  # id: (level, technique, text, note, design_ref)
+ "C07": ("model_checking",
+         "stateless deviation-bounded exploration of the real GRPCBroker + real gRPC under a controlled scheduler and virtual clock",
+         "Every schedule, timer order and select choice with at most d deviations (1-id patterns d=2/3, 2-id patterns d=1/2) of the real host GRPCClient/GRPCBroker and plugin GRPCServer/GRPCBroker over real gRPC on virtual sockets, for every pattern of dial side x issue order x gap; oracle: the PingPong tag answered on the dialled connection is the id's, first call succeeds inside the window, no deadlock, no leaked go-plugin goroutine after Close.",
+         "Trusts: Go runtime + testing/synctest; vnet stream model; gRPC internals run to quiescence between go-plugin's synchronisation points (not enumerated); TLS and address-translator variants are covered by the C12/C14 checks, not here.",
+         "DESIGN.md §3 C07"),
+ "C08": ("model_checking",
+         "stateless deviation-bounded exploration of the real multiplexed GRPCBroker (yamux muxers + gRPC) under a controlled scheduler and virtual clock",
+         "All sequences of 1 and 2 (thorough: 3) sequentially established brokered connections over accept side x accept-first/dial-first x gap, each followed by pings on the main and all earlier connections, under every schedule / timer order / select choice with <= d deviations (singles d=2/3, pairs d=1/2); oracle: tag routing, main listener keeps serving, first call succeeds inside the window, no deadlock/leak.",
+         "Trusts: Go runtime + testing/synctest; vnet stream model; grpc's root package has its sync import replaced by a channel-based (durably blocking) equivalent so that a lock held around a Listener.Close callback cannot stall the bubble; one known finding (stale knock after a knock timeout) is listed in findings/known-findings.jsonl.",
+         "DESIGN.md §3 C08"),
+ "C09": ("model_checking",
+         "stateless deviation-bounded exploration of broker histories on the real MuxBroker / GRPCBroker under a controlled scheduler and virtual clock",
+         "Every history of <= 2 (thorough <= 3) unmatched / duplicate / late dial and accept events with gaps {0, 2 s, 5 s}, followed by a matched pair on a fresh id and Close, on MuxBroker and GRPCBroker (single events on the multiplexed broker), under every schedule / timer order / select choice with <= 2 (thorough 3) deviations; oracle: every call returns (within the documented bound when no timer deviation was taken), the fresh pair succeeds, nothing is blocked for ever, no go-plugin goroutine survives Close.",
+         "Trusts: Go runtime + testing/synctest virtual clock (5 s timers cost nothing); vnet stream model; library internals not enumerated.",
+         "DESIGN.md §3 C09"),
  "C06": ("model_checking",
          "stateless deviation-bounded exploration of the real MuxBroker/yamux code under a controlled scheduler and virtual clock",
          "Every schedule, timer order and select choice with at most d deviations from a canonical scheduler (d=2 quick, 3 thorough) of the real MuxBroker pair over real yamux, for every 1- and 2-ID pattern of dial side x issue order x gap; routing token, byte fidelity, in-window success, deadlock and goroutine-leak oracles on every execution.",
